@@ -372,6 +372,12 @@ pub fn program(p: &Program, names: &Names) -> Option<ProcProgram> {
         if let GlobalStatement::FunctionImplementation(f) = &gs.element {
             let name = &f.name.element;
             let sig = Sig { index, params: params(&f.params)?, result: Some(name.qualifier()?), is_static: f.is_static };
+            // a parameter named like the function IS the result variable for the generator (and changes the
+            // prologue of a STATIC function): outside the model, where the result variable is never a parameter
+            let fbare = name.as_bare_name().to_string();
+            if sig.params.iter().any(|(n, _)| n.eq_ignore_ascii_case(&fbare)) {
+                return None;
+            }
             if cx.functions.insert(name.as_bare_name().to_string().to_ascii_uppercase(), sig).is_some() {
                 return None;
             }
